@@ -1239,7 +1239,13 @@ class ValueObject(Value):
         self.isModule = False
 
     def __hash__(self):
-        return sum(hash(k) + hash(v) for k, v in self.value.items())
+        # the prototype is left out (a prototype cycle is legal):
+        # equal objects still have equal hashes
+        return sum(
+            hash(k) + hash(v)
+            for k, v in self.value.items()
+            if k != "_proto_"
+        )
 
     def __eq__(self, other):
         if not isinstance(other, ValueObject):
